@@ -119,9 +119,14 @@ OnlyNamedChainStep ==
                            \/ q'[ev'.c] = Append(q[ev'.c], [chain |-> ev'.c, tx |-> ev'.tx])
 OnlyNamedChainP == [][OnlyNamedChainStep]_vars
 
-\* Two forwards of the same (chain, tx) are at least W apart.
+\* (The step properties below are written so that each costs at most one pass over `last` per step: traces with
+\* thousands of remembered pairs are validated in time linear in their length times the size of `last`.)
+
+\* Two forwards of the same (chain, tx) are at least W apart: a step that forwards a remembered pair does so only
+\* when the previous forward is at least W old (that no other pair changes is NotRememberedIfNotSent).
 AtMostOncePerWindowStep ==
-    \A p \in DOMAIN last' : (p \in DOMAIN last /\ last'[p] # last[p]) => last'[p] - last[p] >= W
+    (IsRequestStep /\ ev'.fwd) =>
+        LET p == <<ev'.c, ev'.tx>> IN (p \in DOMAIN last => now - last[p] >= W)
 AtMostOncePerWindow == [][AtMostOncePerWindowStep]_vars
 
 \* A request at least W + P after the latest forward of its pair (or never forwarded) is forwarded when
@@ -132,13 +137,17 @@ ForwardAgainStep ==
         (Known(c) /\ Len(q[c]) < cap[c] /\ (~Cached(<<c, tx>>) \/ Age(<<c, tx>>) >= W + P)) => ev'.fwd
 ForwardAgain == [][ForwardAgainStep]_vars
 
-\* A request that did not reach a watcher queue leaves no memory; a forward remembers only its own pair.
+\* A request that did not reach a watcher queue leaves no memory; a forward remembers only its own pair, now.
 NotRememberedIfNotSentStep ==
     IsRequestStep =>
         /\ ~ev'.fwd => last' = last
-        /\ \A p \in DOMAIN last' : p # <<ev'.c, ev'.tx>> => (p \in DOMAIN last /\ last'[p] = last[p])
+        /\ ev'.fwd => last' = (<<ev'.c, ev'.tx>> :> now) @@ last
         /\ (q' # q) <=> ev'.fwd
 NotRememberedIfNotSent == [][NotRememberedIfNotSentStep]_vars
+
+\* Memory changes in Request steps only (and is wiped by Setup).
+MemoryOnlyByRequestsStep == (ev'.n # ev.n /\ ev'.kind \notin {"Request", "Setup"}) => last' = last
+MemoryOnlyByRequests == [][MemoryOnlyByRequestsStep]_vars
 
 \* No action waits: whatever the fill levels, a request has an outcome and a post has a result.
 NeverBlocksFor(c, tx) == CanForward(c, tx) \/ CanDrop(c, tx)
